@@ -42,6 +42,24 @@ private def f3 (name : String) : Option (St → Nat → Nat → Nat → St) :=
   | "as4_mul" => some mpz_mul
   | _ => none
 
+private def fdiv (name : String) : Option (St → Nat → Nat → Nat → Option St) :=
+  match name with
+  | "as4_tdiv_q" => some mpz_tdiv_q
+  | "as4_tdiv_r" => some mpz_tdiv_r
+  | _ => none
+
+/-- `f (w, u, v)` that may raise DIVIDE_BY_ZERO -/
+private def run3o (f : St → Nat → Nat → Nat → Option St) (m : Int) (w u v : Obj) : Option (List Tok) :=
+  let s := heap w u v
+  let go (r : Option St) (i : Nat) : List Tok := match r with | none => [.err "div0"] | some s' => outW s' i
+  match m with
+  | 0 => some (go (f s 0 1 2) 0)
+  | 1 => some (go (f s 1 1 2) 1)
+  | 2 => some (go (f s 2 1 2) 2)
+  | 3 => some (go (f s 0 1 1) 0)
+  | 4 => some (go (f s 1 1 1) 1)
+  | _ => none
+
 private def fui (name : String) : Option (St → Nat → Nat → Nat → St) :=
   match name with
   | "as4_addmul_ui" => some mpz_addmul_ui
@@ -50,9 +68,12 @@ private def fui (name : String) : Option (St → Nat → Nat → Nat → St) :=
 
 def handle : Handler
   | name, [.num m, .num wa, .num wv, .num ua, .num uv, .num va, .num vv] => do
-      let f ← f3 name
       let w ← mk? wa wv; let u ← mk? ua uv; let v ← mk? va vv
-      run3 f m w u v
+      match fdiv name with
+      | some g => run3o g m w u v
+      | none => do
+        let f ← f3 name
+        run3 f m w u v
   | name, [.num m, .num wa, .num wv, .num ua, .num uv, .num k] => do
       let f ← fui name
       if !(0 ≤ k && k < (B : Int)) then none else
